@@ -193,7 +193,11 @@ class PortPart:
                 "packets at and around the fill level; RED thresholds/weights from small sets with scripted uniform draws on the "
                 "k/8 lattice (hits u = p); non-trivial = at least 3 packets and (a packet waited behind another, or a packet "
                 "was refused, or a RED draw was made); kinds port2 / redport2 (12%): two instances with different parameters in one "
-                "Environment, interleaved workloads, per-instance replay and monitors plus the independence clause; distinct "
+"Environment, interleaved workloads, per-instance replay and monitors plus the independence clause; 16% of the "
+                "(sub-)cases are BOUNDARY configurations (RED: min=max step curve, min=max=qlimit, max=qlimit, min=0, all zero, "
+                "max_probability 0 / 1 with draws 0 and 1, gain 1 and 2, an average landing exactly on qlimit; Port: limit 0 in "
+                "both modes, limit 1, a limit of exactly one packet, packets of size 0, rate 0); 13% are configured late by "
+                "assignment, 7% reconfigure rate/qlimit between packets, 20% run a fixed canary before and after; distinct "
                 "by hash of the case"),
         "C08": "same case stream as C09; non-trivial = at least 3 packets of which one waited or was refused",
     }
@@ -316,6 +320,9 @@ class PortPart:
                 lat = [F(0), F(1, 4), F(1, 4), F(1, 2), F(1, 2), F(1), F(1), F(3, 2), F(2), F(3)]
                 case["mon"] = {"incl": rng.random() < 0.5, "dist": [cf.qjson(rng.choice(lat)) for _ in range(rng.randint(1, 14))],
                                "first": rng.random() < 0.3}
+        # boundary configurations: a fixed share of the cases sits ON the edges of the parameter space
+        if rng.random() < 0.16:
+            self._apply_boundary(rng, case, szs)
         # late configuration: built with other values (optional arguments left to their defaults), then the public
         # attributes the code reads at every use are assigned before any traffic
         case["late_cfg"] = rng.random() < 0.15
@@ -334,6 +341,71 @@ class PortPart:
         # a fixed small scenario run before and after this case in the same process: nothing may leak between runs
         case["canary"] = rng.random() < 0.2
         return case
+
+    RED_BOUNDARIES = ["min=max", "min=max", "min=max=qlimit", "max=qlimit", "min=0", "maxp=0", "maxp=1", "gain=1",
+                      "avg-hits-qlimit", "all-zero", "gain=2"]
+    PORT_BOUNDARIES = ["qlimit=0:packets", "qlimit=0:bytes", "qlimit=1:packets", "qlimit=one-packet:bytes", "size-0-packets",
+                       "size-0-packets", "rate=0", "unlimited:bytes"]
+
+    def _apply_boundary(self, rng, case, szs):
+        """degenerate but legal parameterisations: step-function RED (min == max, the linear branch is unreachable and
+        nothing may divide), thresholds meeting the limit, zero thresholds, probabilities 0 and 1 (with draws 0 and 1 in
+        the script), gain 1 (and 2), an average that lands exactly on qlimit; tail drop with limit 0, limit 1, a limit of
+        exactly one packet, packets of size 0, rate 0"""
+        specs = case["workload"]["packets"]
+        if case["kind"] == "redport":
+            b = rng.choice(self.RED_BOUNDARIES)
+            r, lb = case["red"], case["limit_bytes"]
+            unit = max(szs) if lb else 1
+            if b == "min=max":
+                r["min"] = r["max"] = rng.choice([0, unit, 2 * unit])
+                case["qlimit"] = r["max"] + rng.choice([0, unit, 2 * unit])
+            elif b == "min=max=qlimit":
+                r["min"] = r["max"] = case["qlimit"] = rng.choice([unit, 2 * unit])
+            elif b == "all-zero":
+                r["min"] = r["max"] = case["qlimit"] = 0
+            elif b == "max=qlimit":
+                case["qlimit"] = r["max"]
+            elif b == "min=0":
+                r["max"] = r["max"] - r["min"]
+                case["qlimit"] = max(case["qlimit"] - r["min"], r["max"])
+                r["min"] = 0
+            elif b == "maxp=0":
+                r["maxp"] = "0/1"
+            elif b == "maxp=1":
+                r["maxp"] = "1/1"
+            elif b == "gain=1":
+                r["w"] = 0
+            elif b == "gain=2":
+                r["w"] = -1
+            elif b == "avg-hits-qlimit":           # gain 1: the average IS the queue measure found, so it lands on qlimit
+                r["w"] = 0
+                r["min"], r["max"], case["qlimit"] = 0, unit, 2 * unit
+                r["maxp"] = rng.choice(["0/1", "1/8"])
+                if lb:
+                    for sp in specs.values():
+                        sp["size"] = unit
+            if r["w"] in (0, -1):
+                case["uniforms"] = [cf.qjson(rng.choice([F(0), F(0), F(1, 8), F(1, 2), F(1), F(1)])) for _ in case["uniforms"]]
+        else:
+            b = rng.choice(self.PORT_BOUNDARIES)
+            if b.startswith("qlimit=0"):
+                case.update({"qlimit": 0, "limit_bytes": b.endswith("bytes")})
+            elif b == "qlimit=1:packets":
+                case.update({"qlimit": 1, "limit_bytes": False})
+            elif b == "qlimit=one-packet:bytes":
+                case.update({"qlimit": rng.choice(szs), "limit_bytes": True})
+            elif b == "size-0-packets":
+                for sp in specs.values():
+                    if rng.random() < 0.4:
+                        sp["size"] = 0
+                left = [sp["size"] for sp in specs.values()]
+                case.update({"limit_bytes": True, "qlimit": rng.choice([0, 0, max(left), sum(left[:2])])})
+            elif b == "rate=0":
+                case["rate"] = 0
+            elif b == "unlimited:bytes":
+                case.update({"qlimit": None, "limit_bytes": True})
+        case["boundary"] = b
 
     @staticmethod
     def _renumber_ids(w):
@@ -1140,6 +1212,8 @@ class PortPart:
         for fl in ("late_cfg", "reconf", "canary"):
             if case.get(fl):
                 keys.append(f"{k}:{fl}")
+        if case.get("boundary"):
+            keys.append(f"{k}:boundary:{case['boundary']}")
         ids = {}
         for sp in case["workload"]["packets"].values():
             ids.setdefault(sp["id"], set()).add(sp["flow"])
